@@ -169,6 +169,27 @@ static void v_walk(bool newmem) {
     if (i != MN) judge("C10", "walk-short", "walk returned %d of %d", i, MN); else vf_count("walks_audited", 1);
 }
 
+/* a cursor that outlives a change of the vector: the walk goes on with the element the cursor's position holds NOW, and ends when the position is at or past the end */
+static void v_walk_across_change(void) {
+    if (MN < 2) return;
+    qvector_obj_t o; memset(&o, 0, sizeof o);
+    int k = 1 + (int)rng_below(&R, (uint32_t)MN), i = 0;
+    vf_log("getnext-walk of %d steps, then the vector changes, then the same cursor continues (n=%d)", k, MN);
+    for (; i < k; i++) { if (!V->getnext(V, &o, false) || memcmp(o.data, mel(i), ES)) { judge("C10", "walk-order", "walk element %d differs", i); return; } }
+    uint32_t how = rng_below(&R, 4);
+    if (how == 0) { int m = 1 + (int)rng_below(&R, (uint32_t)MN); for (int j = 0; j < m && MN; j++) { V->removelast(V); m_del(MN - 1); } }
+    else if (how == 1) { V->clear(V); MN = 0; }
+    else if (how == 2) { size_t nm = rng_below(&R, (uint32_t)MN); if (nm == 0) nm = 1; if (!V->resize(V, nm)) { judge("C10", "resize-failed", "resize(%zu) failed", nm); return; } if ((size_t)MN > nm) MN = (int)nm; }
+    else { V->removefirst(V); m_del(0); }
+    for (int step = 0; step < 3; step++, i++) {
+        bool r = V->getnext(V, &o, false), want = i < MN;
+        if (r != want) { judge("C10", "walk-after-change", "cursor at position %d of a vector that now holds %d elements: getnext returned %d", i, MN, r); return; }
+        if (!r) break;
+        if (memcmp(o.data, mel(i), ES)) { judge("C10", "walk-after-change", "cursor at position %d after the change: wrong element", i); return; }
+    }
+    vf_count("walks_continued_across_a_change", 1);
+}
+
 /* ---- exhaustive sweep ---------------------------------------------------------- */
 static void sweep(long caseno, int part, int nparts) {
     static const size_t ESZ[5] = {1, 3, 8, 17, 64};
@@ -209,7 +230,7 @@ static void history(long caseno) {
         else if (c < 56) v_access((int)rng_below(&R, 3), idx, 1);
         else if (c < 64) v_access((int)rng_below(&R, 3), idx, 2);
         else if (c < 74) v_access((int)rng_below(&R, 3), MN > 2 && rng_chance(&R, 1, 2) ? 1 + (int)rng_below(&R, (uint32_t)MN - 2) : idx, 3);
-        else if (c < 79) v_walk(rng_chance(&R, 1, 2));
+        else if (c < 79) { if (rng_chance(&R, 1, 4)) v_walk_across_change(); else v_walk(rng_chance(&R, 1, 2)); }
         else if (c < 84) v_toarray();
         else if (c < 88) { vf_log("reverse"); V->reverse(V); for (int i = 0; i < MN / 2; i++) { unsigned char t[80]; memcpy(t, mel(i), ES); memcpy(mel(i), mel(MN - 1 - i), ES); memcpy(mel(MN - 1 - i), t, ES); } vf_count("reversals", 1); }
         else if (c < 97 && rng_chance(&R, 1, 8)) v_resize_absurd(rng_chance(&R, 1, 2));
